@@ -166,9 +166,9 @@ Lemma handlers_fail_closed : forall r sv f, wf_flow f = true ->
   fail_closed_prog (closed_answer f) (excused f) (handler r sv f) = true.
 Proof.
   intros r sv f Hwf.
-  destruct r, sv; destruct f as [c b|c|c m|c b m|c b|c|c| |c s w|c|c b b'|c|c|c t b|c v| | |];
+  destruct r, sv; destruct f as [c b rt m|c|c m|c b m|c b|c|c| |c s w|c|c b b'|c|c|c t b|c v| | |];
     repeat match goal with
-           | x : client |- _ => destruct x | x : bool |- _ => destruct x | x : rmode |- _ => destruct x
+           | x : client |- _ => destruct x | x : bool |- _ => destruct x | x : rmode |- _ => destruct x | x : rtype |- _ => destruct x
            | x : subj |- _ => destruct x | x : want |- _ => destruct x | x : revtok |- _ => destruct x
            | x : endvar |- _ => destruct x
            end;
@@ -178,9 +178,9 @@ Qed.
 Lemma handlers_strict : forall r sv f, goes_on sv f = false -> strict (handler r sv f) = true.
 Proof.
   intros r sv f Hn.
-  destruct r, sv; destruct f as [c b|c|c m|c b m|c b|c|c| |c s w|c|c b b'|c|c|c t b|c v| | |];
+  destruct r, sv; destruct f as [c b rt m|c|c m|c b m|c b|c|c| |c s w|c|c b b'|c|c|c t b|c v| | |];
     repeat match goal with
-           | x : client |- _ => destruct x | x : bool |- _ => destruct x | x : rmode |- _ => destruct x
+           | x : client |- _ => destruct x | x : bool |- _ => destruct x | x : rmode |- _ => destruct x | x : rtype |- _ => destruct x
            | x : subj |- _ => destruct x | x : want |- _ => destruct x | x : revtok |- _ => destruct x
            | x : endvar |- _ => destruct x
            end;
@@ -388,3 +388,67 @@ Proof.
   - intros m' kd' Hf. destruct (faults_method _ _ _ _ _ Hf) as [Hm Hk]. subst.
     unfold excused. rewrite Hop, Hdoc. reflexivity.
 Qed.
+
+(* ---- the response mode only shapes the fault-free answer ---- *)
+Lemma same_handlers_refl : forall g, same_handlers g g.
+Proof.
+  induction g as [r | m h IHh k IHk]; cbn [same_handlers]; [exact I|].
+  split; [reflexivity|]. split; [intros kd; reflexivity | exact IHk].
+Qed.
+
+Lemma same_handlers_run : forall g1 g2, same_handlers g1 g2 -> forall p,
+  trace p g1 = trace p g2 /\ (hit p g1 = true -> answer p g1 = answer p g2).
+Proof.
+  induction g1 as [r1 | m1 h1 IHh k1 IHk]; intros [r2 | m2 h2 k2] Hs p; cbn [same_handlers] in Hs; try contradiction.
+  - split; [reflexivity | intro H; discriminate H].
+  - destruct Hs as [Hm [Hh Hk]]. subst m2.
+    destruct (step p m1) as [[kd|] p'] eqn:Hst.
+    + destruct (run_call_fault p m1 h1 k1 kd p' Hst) as [Ha1 Ht1].
+      destruct (run_call_fault p m1 h2 k2 kd p' Hst) as [Ha2 Ht2].
+      rewrite Ha1, Ha2, Ht1, Ht2, (Hh kd). split; [reflexivity | intros _; reflexivity].
+    + destruct (run_call_pass p m1 h1 k1 p' Hst) as [Ha1 Ht1].
+      destruct (run_call_pass p m1 h2 k2 p' Hst) as [Ha2 Ht2].
+      destruct (IHk k2 Hk p') as [Ht Ha].
+      split.
+      * rewrite Ht1, Ht2, Ht. reflexivity.
+      * intro Hhit. rewrite Ha1, Ha2. apply Ha.
+        unfold hit in *. rewrite Ht1 in Hhit. exact Hhit.
+Qed.
+
+Lemma handlers_same_mode : forall r sv f m,
+  same_handlers (handler r sv (set_mode f m)) (handler r sv f).
+Proof.
+  intros r sv f m.
+  destruct f as [c b rt m0|c|c m0|c b m0|c b|c|c| |c s w|c|c b b'|c|c|c t b|c v| | |];
+    cbn [set_mode]; try apply same_handlers_refl.
+  - cbn [handler h_callback_code same_handlers]. repeat split.
+  - destruct sv, c, b; cbv -[auth_error success_cls]; repeat split.
+Qed.
+
+Lemma response_mode_only_success : forall r sv f m p,
+  journal p (handler r sv (set_mode f m)) = journal p (handler r sv f) /\
+  hit p (handler r sv (set_mode f m)) = hit p (handler r sv f) /\
+  (hit p (handler r sv f) = true ->
+   answer p (handler r sv (set_mode f m)) = answer p (handler r sv f)).
+Proof.
+  intros r sv f m p.
+  destruct (same_handlers_run _ _ (handlers_same_mode r sv f m) p) as [Ht Ha].
+  unfold journal, hit. rewrite Ht. repeat split.
+  intro Hhit. apply Ha. unfold hit. rewrite Ht. exact Hhit.
+Qed.
+
+(* ... and it does shape it: the fault-free callback answers 200 (the auto-submitting form)
+   for form_post and a redirect otherwise *)
+Lemma response_mode_nonvacuous :
+  exists p, hit p (handler RProvider SStd (FCallbackCode Web MFormPost)) = true /\
+    r_cls (answer PNone (handler RProvider SStd (FCallbackCode Web MFormPost))) = KOk /\
+    r_cls (answer PNone (handler RProvider SStd (FCallbackCode Web MDefault))) = K302 /\
+    r_cls (answer p (handler RProvider SStd (FCallbackCode Web MFormPost))) = K302Err.
+Proof. exists (PAt 3 (K BDeadline false)). vm_compute. repeat split. Qed.
+
+(* the handlers are the same programs whether or not results accompany a failure: they never
+   look at what a failing call returned *)
+Lemma failure_results_ignored : forall r f p,
+  model (Req r SKeep f false p) = model (Req r SStd f false p) /\
+  model (Req r SKeep f true p) = model (Req r SStd f true p).
+Proof. intros r f p. split; reflexivity. Qed.
